@@ -8,6 +8,7 @@ package interp
 // external or because they use "unsafe" or "reflect" operations.
 
 import (
+	"go/types"
 	"bytes"
 	"math"
 	"os"
@@ -144,10 +145,16 @@ func ext۰bytes۰IndexByte(fr *frame, args []value) value {
 }
 
 func ext۰math۰Float64frombits(fr *frame, args []value) value {
+	if sx, ok := args[0].(sym); ok {
+		return sym{sx.t, types.Float64} // a symbolic float64 is carried as its 64 IEEE bits
+	}
 	return math.Float64frombits(args[0].(uint64))
 }
 
 func ext۰math۰Float64bits(fr *frame, args []value) value {
+	if sx, ok := args[0].(sym); ok {
+		return sym{sx.t, types.Uint64}
+	}
 	return math.Float64bits(args[0].(float64))
 }
 
